@@ -369,3 +369,111 @@ func leavesLoop(info *types.Info, stmts []ast.Stmt) bool {
 	}
 	return false
 }
+
+// R1.6: an object that is already declared in the scope may only be reused (the `old != nil` arm of a
+// Scope.Insert that does not end in an error report) after the new value was checked against the
+// existing object's type: `a, b := f()` with an existing `a` assigns to it.
+func r16redecl(c *fw.Ctx) {
+	const rule = "R1.6"
+	p := c.Pkg("")
+	info := p.TypesInfo
+	errT := types.Universe.Lookup("error").Type()
+	nSites, nReuse := 0, 0
+	for _, fd := range c.Decls() {
+		if c.PkgOfDecl(fd) != p || fd.Body == nil {
+			continue
+		}
+		fname := declName(c, fd)
+		count := 0
+		ast.Inspect(fd.Body, func(n ast.Node) bool {
+			is, ok := n.(*ast.IfStmt)
+			if !ok || is.Init == nil {
+				return true
+			}
+			as, ok := is.Init.(*ast.AssignStmt)
+			if !ok || len(as.Lhs) != 1 || len(as.Rhs) != 1 {
+				return true
+			}
+			call, ok := unparen(as.Rhs[0]).(*ast.CallExpr)
+			if !ok || !isFunc(callee(info, call), "go/types", "Scope.Insert") {
+				return true
+			}
+			id, ok := as.Lhs[0].(*ast.Ident)
+			if !ok {
+				return true
+			}
+			old := info.Defs[id]
+			be, ok := unparen(is.Cond).(*ast.BinaryExpr)
+			if old == nil || !ok || be.Op != token.NEQ {
+				return true
+			}
+			if x, ok := unparen(be.X).(*ast.Ident); !ok || info.Uses[x] != old {
+				return true
+			}
+			nSites++
+			count++
+			paths, trunc := enumPaths(info, is.Body)
+			if trunc {
+				c.Undecided(rule, sprintf("%s/insert-old#%d/paths", fname, count), is.Pos(), "too many paths")
+				return true
+			}
+			mentionsOld := func(e ast.Node) bool {
+				found := false
+				ast.Inspect(e, func(m ast.Node) bool {
+					if x, ok := m.(*ast.Ident); ok && info.Uses[x] == old {
+						found = true
+					}
+					return !found
+				})
+				return found
+			}
+			reuse, unchecked := 0, 0
+			for _, pa := range paths {
+				if pa.Abnormal {
+					continue
+				}
+				// a path that returns a non-nil error is an error report, not a reuse
+				isErr := false
+				for _, nd := range pa.Nodes {
+					if r, ok := nd.(*ast.ReturnStmt); ok {
+						for _, e := range r.Results {
+							if tv, ok := info.Types[e]; ok && !tv.IsNil() && types.Identical(tv.Type, errT) {
+								isErr = true
+							}
+						}
+					}
+				}
+				if isErr {
+					continue
+				}
+				reuse++
+				checked := false
+				for _, cl := range callsIn(pa.Nodes) {
+					fn, _ := callee(info, cl).(*types.Func)
+					if !isCheckerFunc(fn) && !isFunc(fn, "go/types", "Identical") {
+						continue
+					}
+					for _, a := range cl.Args {
+						if mentionsOld(a) {
+							checked = true
+						}
+					}
+				}
+				if !checked {
+					unchecked++
+				}
+			}
+			key := sprintf("%s/insert-old#%d", fname, count)
+			if reuse == 0 {
+				c.OK(rule, key, is.Pos(), "every path through the already-declared arm reports an error")
+				return true
+			}
+			nReuse++
+			c.Check(unchecked == 0, rule, key+"/reuse-checked", is.Pos(),
+				"%d of %d normal paths that reuse the already-declared object do not check the new value against its type: `a, b := f()` with an existing a of another type is accepted", unchecked, reuse)
+			return true
+		})
+	}
+	c.Floor(rule, "Scope.Insert sites with an already-declared arm", nSites, 6)
+	c.Floor(rule, "reuse arms", nReuse, 1)
+}
